@@ -1,3 +1,4 @@
+\* a retransmission whose socket write takes time and may fail, Close called meanwhile
 SPECIFICATION Spec
 VIEW View
 CHECK_DEADLOCK FALSE
@@ -6,10 +7,10 @@ CONSTANTS
   RTO = 200
   MaxIvl = 1600
   MaxSend = 7
-  FineTime = TRUE
-  SlowWrites = TRUE
-  SlowRtx = "no"
-  FailAts = {0, 1, 2, 7}
+  FineTime = FALSE
+  SlowWrites = FALSE
+  SlowRtx = "close"
+  FailAts = {0, 2}
   MaxDepth = 9
 CONSTRAINT DepthBound
 INVARIANTS C12_Schedule C12_NothingLeft
